@@ -96,6 +96,7 @@ From Helm Require Import Chart.AgreeProofs.
 Definition ignK (n : string) (_ : bool) : bool := String.eqb n "README.md".
 Definition walkK : list file :=
   [mkFile ".helmignore" "README.md"; mkFile "Chart.yaml" "name: k4"; mkFile "README.md" "ignored";
+   mkFile "notes.txt" (utf8bom ++ utf8bom ++ "x");
    mkFile "templates/a.yaml" (utf8bom ++ "a: 1"); mkFile "values.schema.json" "{}"].
 
 Lemma agree_example :
@@ -103,7 +104,7 @@ Lemma agree_example :
   fits 1000 100 (map (fun f => tar_entry ("k4" ++ "/" ++ f_name f) (f_data f)) (kept ignK walkK)) /\
   kept ignK walkK <> [] /\
   exists c, load_dir_walk mergeK lock_decK parseK untarK sanK semverK restK 1000 100 ignK 1 walkK = inr c /\
-            c_templates c = [mkFile "templates/a.yaml" "a: 1"] /\ c_files c = [mkFile ".helmignore" "README.md"].
+            c_templates c = [mkFile "templates/a.yaml" "a: 1"] /\ c_files c = [mkFile ".helmignore" "README.md"; mkFile "notes.txt" (utf8bom ++ "x")].
 Proof.
   split; [reflexivity|]. split; [repeat constructor|]. split.
   { split; [repeat constructor; vm_compute; discriminate|vm_compute; reflexivity]. }
@@ -192,3 +193,16 @@ Qed.
 
 Definition roundtrip_example := conj codecK_ok (conj c_ok_wf c_ok_saved).
 Definition roundtrip_rec_example := conj codecT_ok (conj treeT_ok treeT_saved).
+
+(* a dependency two levels down whose name is a path: nothing is written *)
+Definition badT : chart :=
+  Chart (metaT "root") None [] None None [] []
+        [Chart (metaT "mid") None [] None None [] [] [leafT "../../up" [mkFile "f" "f"]]].
+
+Lemma badT_not_saved :
+  bad_name_in (Chart (metaT "mid") None [] None None [] [] [leafT "../../up" [mkFile "f" "f"]]) /\
+  save encT lock_encK jsonK sanK semverK restT badT = None.
+Proof.
+  split; [|vm_compute; reflexivity].
+  apply (BadBelow _ (leafT "../../up" [mkFile "f" "f"])); [now left|]. apply BadHere. vm_compute. reflexivity.
+Qed.
